@@ -34,7 +34,9 @@ ASSUMPTIONS = ['deviation bound 2 (quick) / 3 (thorough) over a reduced mutation
 def bounds(tier):
     return ('quick: II, OO, fs x 4 kinds x 2 implementations, N=4 @2/2: all 1-deviation schedules with the '
             'full mutation alphabet, all 2-deviation schedules with the reduced alphabet on 4 iterator '
-            'forms; thorough: N=5, 3 deviations on iter() and items()')
+            'forms; thinned deep trees (8 keys built ascending @2/2, every deletion subset): all '
+            '1-deviation schedules with the reduced alphabet on 4 forms; thorough: N=5, 3 deviations on '
+            'iter() and items(), thinned trees of 10 keys asc/desc')
 
 
 def required_guards(tier):
@@ -51,15 +53,20 @@ def configs(tier):
                 tree = kind in F.TREE_KINDS
                 n = 4 if tier == 'quick' else 5
                 out.append((fam, kind, impl, (2, 2) if tree else None, n, 2 if tier == 'quick' else 3,
-                            (30 if tree else 3) * (8 if impl == 'py' else 1)))
+                            None, (30 if tree else 3) * (8 if impl == 'py' else 1)))
+                if tree and (fam != 'fs' or tier != 'quick'):
+                    # thinned deep trees (3+ interior levels): one deviation, reduced alphabet
+                    nn = (8 if impl == 'c' else 7) if tier == 'quick' else (10 if impl == 'c' else 9)
+                    for order in (('asc',) if tier == 'quick' else ('asc', 'desc')):
+                        out.append((fam, kind, impl, (2, 2), nn, 1, order, 60))
     return out
 
 
 def jobs(tier):
     return [{'fn': 'job', 'weight': w, 'group': '%s/%s' % (impl, kind),
              'flavour': 'asan' if impl == 'c' else 'plain',
-             'args': dict(fam=fam, kind=kind, impl=impl, sizes=sizes, n=n, D=D)}
-            for fam, kind, impl, sizes, n, D, w in configs(tier)]
+             'args': dict(fam=fam, kind=kind, impl=impl, sizes=sizes, n=n, D=D, thin=thin)}
+            for fam, kind, impl, sizes, n, D, thin, w in configs(tier)]
 
 
 # --------------------------------------------------------------------------
@@ -263,9 +270,9 @@ def dict_of_devs(devs):
     return d
 
 
-def job(fam, kind, impl, sizes, n, D):
+def job(fam, kind, impl, sizes, n, D, thin=None):
     ctx = O.Ctx(fam, kind, impl)
-    ex = S.explorer(fam, kind, impl, sizes, n, 'centred', 'C15')
+    ex = S.explorer(fam, kind, impl, sizes, n, 'centred', 'C15', thin=thin)
     keys, grid = ex.keys, ex.grid
     states = []
     ex.state_monitors.append(lambda e, hist, t, model, c: states.append((hist, model.copy(), c)))
@@ -277,6 +284,10 @@ def job(fam, kind, impl, sizes, n, D):
         else:
             alpha.append(op)
     ex.alphabet = alpha
+    if thin:
+        # deep thinned trees: scripted build with key-determined values, then all deletions
+        ex.prefix = tuple((('setitem', op[1], valof(fam, grid, op[1])) if op[0] == 'setitem' else op)
+                          for op in ex.prefix)
     ex.run()
     rep = Reporter('C15')
     guards = collections.Counter(ex.guards)
@@ -284,7 +295,7 @@ def job(fam, kind, impl, sizes, n, D):
     distinct = 0
     sample = None
     maxsteps = n + 3
-    base = dict(fam=fam, kind=kind, impl=impl, sizes=sizes, n=n, D=D,
+    base = dict(fam=fam, kind=kind, impl=impl, sizes=sizes, n=n, D=D, thin=thin,
                 flavour='asan' if impl == 'c' else 'plain')
     full = mutations(ctx, keys, grid, False)
     reduced = [m for m in full if m[0] not in ('insert', 'pop') or m[1:] == (grid[0],)]
@@ -295,9 +306,11 @@ def job(fam, kind, impl, sizes, n, D):
             break
         nsteps = 2 * len(model.keylist()) + 3
         for fname, form in fdict.items():
+            if thin and fname not in REDUCED_FORMS:
+                continue
             positions = list(range(0, min(nsteps, 2 * maxsteps) + 1))
             scheds = [()]
-            scheds += [((p, m),) for p in positions for m in full]
+            scheds += [((p, m),) for p in positions for m in (reduced if thin else full)]
             if fname in REDUCED_FORMS and not (ctx.is_map and fname in ('iter', 'keys()')):
                 for k in range(2, D + 1):
                     if k == 3 and fname not in ('iter', 'items()'):
